@@ -6,7 +6,7 @@ def register(CHECKS, NOT_YET, ENGINES, EXTRA_ENGINE, EXTRA_NOTE):
                      "Generated documents are printed from every node in all four format modes (debug-assertion and release build) and compared line by line with a reference renderer written from the property text; panics are caught and reported. Sampled, not exhaustive.")
     EXTRA_NOTE["C14"] = "Trusted base: the reference renderer in harness/core/src/pretty.rs, proptest, rustc. Documents bounded to <= 28 nodes and <= 4 lines per payload."
     CHECKS["C16"] = ("§7.16", "round-trip PBT through serde_json inside generated histories; lock-step continuation of original and copy",
-                     "With the deser feature enabled, generated histories serialise and deserialise the arena at generated points; equality, re-serialisation, is_removed of every historical id, and identical behaviour of copy and original under the remaining calls are checked. Sampled states, one data format.")
+                     "With the deser feature enabled, generated histories serialise and deserialise the arena at generated points; equality, re-serialisation, is_removed of every historical id, and identical behaviour of copy and original under the remaining calls are checked. Run over seven payload shapes on the wire. Sampled states, one data format.")
     EXTRA_NOTE["C16"] = "Trusted base: serde / serde_json (as carrier), the reference model, proptest. Built with indextree feature deser in its own target directory."
     CHECKS["C17"] = ("§7.17", "differential PBT across cargo feature sets: identical observation digests for one seeded battery; par_iter multiset = iter",
                      "The same seeded battery of generated and exhaustively enumerated histories is executed by harness binaries built against every feature set (4 in quick, all 16 in thorough); per-history digests of everything observable must agree, each build is also judged by the model oracles, and par_iter() is compared with iter() in par_iter builds. A feature set that stops compiling is reported as well.")
